@@ -12,7 +12,9 @@ from vlib.runner import hyp
 
 PROPERTY = 'C09'
 LEVEL = 'exploration'
-RULE = ('A scenario = (allowed set: None/all, singleton, pair, '
+RULE = ('One allowed version spelled twice (names / name and number / '
+        'number twice) is still a single version: no status query. '
+'A scenario = (allowed set: None/all, singleton, pair, '
         'chronological prefix/suffix, random subset of the supported '
         'protocols, each member spelled as number or as any version name '
         'mapping to it, optionally with an invalid member), default version '
